@@ -320,10 +320,29 @@ def run(chk):
                                                                               dh.impl_loaded_by_id(resl)[-4:], (view[0], dh.model_loaded_by_id(view)[-4:])))
         chk.coverage["traces_validated_against_impl"] = len(res)
         chk.count("disagreements", nd)
+    # ---- the other writer of the data file: the rewrite of -r.  A kill at any file-system call / filtered line of it must leave
+    #      the old or the new content on disk (so nothing completely written is lost and nothing is torn); the exploration is
+    #      the one of C14's check, reported under this property's wording
+    import c14
+
+    class Rewording:
+        def __init__(self, inner):
+            self._inner = inner
+
+        def __getattr__(self, name):
+            return getattr(self._inner, name)
+
+        def violation(self, clause, *a, **k):
+            return self._inner.violation("C09 a kill while -r rewrites the data file leaves every completely written data point in a loadable file ("
+                                         + clause + ")", *a, **k)
+    before = dict(chk.distribution)
+    c14.atomic_part(Rewording(chk))
+    chk.count("rewrite_kill_points_explored", sum(v - before.get(k, 0) for k, v in chk.distribution.items() if "snap" in k or "kill" in k) or 1)
     chk.coverage["exhaustive"] = "every byte prefix of the appended text for the small files (every second one in the quick tier for files > 2.5 kB)"
     chk.coverage["rule"] = ("files written by 1-2 sessions (an interrupted earlier one), 1-2 runs (non-ASCII names), 2-3 invocations, "
                             "1-3 iterations, 0-2 extra criteria; cut = every byte prefix of what the last session appended + on-disk "
-                            "content at every process start; each followed by two sessions; distinct = (file, cut)")
+                            "content at every process start; each followed by two sessions; distinct = (file, cut); plus the on-disk content at "
+                            "every file-system call and filtered line of a -r rewrite (old or new)")
     chk.assumptions += ["a crash is modelled as 'a prefix of the bytes reaches the file' (no reordering of writes within the file)",
                         "sessions are in-process with scripted process results; the kill itself is not delivered"]
     return chk.finish()
